@@ -1,6 +1,94 @@
 import Driver.Util
-/-! Model driver stub (owned by the Merkle work package). -/
+import Verif.Model.Merkle
+/-! Model driver for suite c19 (op language: see /verif/go/harness/suite_c19.go). -/
 namespace Driver.Merkle
-def step (s : Unit) (_w : List String) : Unit × String := (s, "unimplemented")
-def main : IO Unit := Driver.loop () step
+open Verif.Merkle Driver
+
+def hash (s : String) : String := Verif.Sha3.sha3Hex s
+
+/-- `util.MHash(a, b) = Hash(a + b)` on hex strings -/
+def mhash (a b : String) : String := hash (a ++ b)
+
+/-- FNV-1a 64 of a long canonical text, 16 hex digits (fingerprint of tree arrays and path lists; see `c19Digest`) -/
+def digest (s : String) : String :=
+  let h := s.toUTF8.foldl (fun (h : UInt64) b => (h ^^^ b.toUInt64) * 0x100000001b3) 0xcbf29ce484222325
+  String.ofList ((List.range 16).map (fun i => hexChar ((h >>> (UInt64.ofNat (60 - 4 * i))).toNat % 16)))
+
+structure St where
+  leaves : Array String := #[]
+  tree : Option (Tree String) := none
+
+def nodesStr (p : List String) : String := if p.isEmpty then "-" else ",".intercalate p
+
+def pathsDigest (t : Tree String) (n : Nat) : String :=
+  let lines := (List.range n).map (fun i =>
+    let p := pathByIndex "" t i
+    toString p.leafIndex ++ ":" ++ nodesStr p.nodes ++ "\n")
+  digest (String.join lines)
+
+def bstr (b : Bool) : String := if b then "true" else "false"
+
+def pathLine (t : Tree String) (h : String) (p : Path String) : String :=
+  let v := verify mhash h p (getRoot "" t)
+  "ok " ++ toString p.leafIndex ++ " " ++ nodesStr p.nodes ++ " " ++ bstr v ++ " " ++ bstr v
+
+def step (s : St) (w : List String) : St × String :=
+  match s.tree, w with
+  | none, ["leaves", n, tag] =>
+    ({ s with leaves := (Array.range n.toNat!).map (fun i => hash (tag ++ "/" ++ toString i)) }, "ok")
+  | none, ["dup", i, j] =>
+    let i := i.toNat!; let j := j.toNat!
+    if i < s.leaves.size ∧ j < s.leaves.size then ({ s with leaves := s.leaves.set! i s.leaves[j]! }, "ok") else (s, "bad-op")
+  | none, ["compute"] =>
+    if s.leaves.size = 0 then (s, "bad-op") else
+    let t := computeTree mhash "" s.leaves.toList
+    ({ s with tree := some t },
+      "ok " ++ toString t.tree.size ++ " " ++ getRoot "" t ++ " " ++ digest (",".intercalate t.tree.toList))
+  | some t, ["tree"] => (s, "ok " ++ ",".intercalate t.tree.toList)
+  | some t, ["pathidx", i] =>
+    let i := i.toNat!
+    if i < s.leaves.size then (s, pathLine t s.leaves[i]! (pathByIndex "" t i)) else (s, "bad-op")
+  | some t, ["pathleaf", i] =>
+    let i := i.toNat!
+    if i < s.leaves.size then (s, pathLine t s.leaves[i]! (getPath "" t s.leaves[i]!)) else (s, "bad-op")
+  | some t, ["pathmissing", tag] => (s, pathLine t (hash tag) (getPath "" t (hash tag)))
+  | some t, ["allpaths"] => (s, "ok " ++ pathsDigest t s.leaves.size)
+  | some t, ["verifyall"] =>
+    let root := getRoot "" t
+    let c := (List.range s.leaves.size).foldl (fun c i =>
+      if verify mhash s.leaves[i]! (pathByIndex "" t i) root then c + 1 else c) 0
+    (s, "ok " ++ toString c)
+  | some t, ["offer", i, j] =>
+    let i := i.toNat!; let j := j.toNat!
+    if i < s.leaves.size ∧ j < s.leaves.size then
+      (s, bstr (verify mhash s.leaves[j]! (pathByIndex "" t i) (getRoot "" t)))
+    else (s, "bad-op")
+  | some t, ["offerrand", i, tag] =>
+    let i := i.toNat!
+    if i < s.leaves.size then (s, bstr (verify mhash (hash tag) (pathByIndex "" t i) (getRoot "" t))) else (s, "bad-op")
+  | some t, ["offerall", i] =>
+    let i := i.toNat!
+    if i < s.leaves.size then
+      let p := pathByIndex "" t i
+      let root := getRoot "" t
+      let c := (List.range s.leaves.size).foldl (fun c j =>
+        if j ≠ i ∧ verify mhash s.leaves[j]! p root then c + 1 else c) 0
+      (s, "ok " ++ toString c)
+    else (s, "bad-op")
+  | some t, ["vidx", i, k] =>
+    let i := i.toNat!
+    match k.toInt? with
+    | some k =>
+      if i < s.leaves.size then
+        let p := pathByIndex "" t i
+        (s, bstr (verify mhash s.leaves[i]! { p with leafIndex := k } (getRoot "" t)))
+      else (s, "bad-op")
+    | none => (s, "bad-op")
+  | some t, ["settree", m] =>
+    match setTree m.toNat! t.tree with
+    | none => (s, "err")
+    | some t2 => (s, "ok " ++ getRoot "" t2 ++ " " ++ pathsDigest t2 s.leaves.size)
+  | _, _ => (s, "bad-op")
+
+def main : IO Unit := loop ({} : St) step
 end Driver.Merkle
